@@ -63,6 +63,30 @@ def r04a(chk, rid='R04.a'):
             ok = st is not None and text(st) == 'token'
             chk.ob(rid, cb.rel, cb.qual, text(call), ok,
                    'the offending token is not handed to the bracket counter: if it is "(", "[", "{" or a FUNCTION, its closing bracket drives the counter negative and the skip runs past the end of the construct')
+        # local helpers (not registered as callbacks themselves) that the callback hands its token to
+        m = chk.repo.mod(cb.rel)
+        owner = m.enclosing_def(cb.target)
+        if owner is None:
+            continue
+        registered = {id(c2.target) for c2 in cbs}
+        for c in ast.walk(cb.target):
+            if not (isinstance(c, ast.Call) and isinstance(c.func, ast.Name) and m.enclosing_def(c) is cb.target):
+                continue
+            helper = next((d for d in ast.walk(owner) if isinstance(d, ast.FunctionDef) and d.name == c.func.id and m.enclosing_def(d) is owner and id(d) not in registered), None)
+            if helper is None:
+                continue
+            params = [a.arg for a in helper.args.args]
+            bound = [params[i] for i, a in enumerate(c.args) if text(a) == 'token' and i < len(params)] + [k.arg for k in c.keywords if text(k.value) == 'token']
+            if not bound:
+                continue
+            for call in _skip_calls(helper):
+                if m.enclosing_def(call) is not helper:
+                    continue
+                n += 1
+                st = _starttoken(call)
+                ok = st is not None and text(st) == bound[0]
+                chk.ob(rid, cb.rel, cb.qual, f'{text(call)} in helper {helper.name} (called with the token)', ok,
+                       'the offending token is not handed to the bracket counter: if it is "(", "[", "{" or a FUNCTION, its closing bracket drives the counter negative and the skip runs past the end of the construct')
     if n < 3:
         raise AnalysisError(f'only {n} skipping callbacks found (3 confirmed by hand: two rule-set defaults and the declaration error handler)')
 
@@ -81,6 +105,41 @@ def r04b(chk, rid='R04.b'):
             fn = m.get(q)
             g = cfgmod.CFG(fn)
             slices = [n for n in g.nodes if any(call_name(c) == 'self._tokensupto2' for c in cfgmod.calls_at(n))]
+            # a local helper that is handed (tokenizer, token) and consumes the statement on all its paths
+            ownerfn = m.get(owner)
+            for n in g.nodes:
+                for c in cfgmod.calls_at(n):
+                    if not isinstance(c.func, ast.Name):
+                        continue
+                    helper = next((d for d in ast.walk(ownerfn) if isinstance(d, ast.FunctionDef) and d.name == c.func.id and m.enclosing_def(d) is ownerfn and d is not fn), None)
+                    if helper is None:
+                        continue
+                    params = [a.arg for a in helper.args.args]
+                    bind = {params[i]: text(a) for i, a in enumerate(c.args) if i < len(params)}
+                    bind.update({k.arg: text(k.value) for k in c.keywords})
+                    inv = {v: k for k, v in bind.items()}
+                    if 'token' not in inv or 'tokenizer' not in inv:
+                        continue
+                    hg = cfgmod.CFG(helper)
+                    hs = [x for x in hg.nodes if any(call_name(cc) == 'self._tokensupto2' for cc in cfgmod.calls_at(x))]
+                    if not hs:
+                        continue
+                    okh, hpath = hg.all_paths_pass([ENTRY], lambda x: x in hs, targets=[EXIT_RET])
+                    chk.ob(rid, rel, q, f'helper {helper.name} consumes the statement on every path', okh, '' if okh else 'path that returns without consuming: ' + ' -> '.join(hpath[-4:]))
+                    for x in hs:
+                        for cc in cfgmod.calls_at(x):
+                            if call_name(cc) == 'self._tokensupto2':
+                                plain = len(cc.args) == 2 and text(cc.args[0]) == inv['tokenizer'] and text(cc.args[1]) == inv['token'] and not cc.keywords
+                                chk.ob(rid, rel, q, f'`{text(cc)}` in helper {helper.name} uses the default statement end (semicolon or the matching closing brace)', plain,
+                                       'another terminator lets a malformed statement with a block run on to the next ";" of the sheet')
+                    rule_param = next((k for k, v in bind.items() if v == 'rule'), None)
+                    for x in hg.nodes:
+                        for cc in cfgmod.calls_at(x):
+                            if call_name(cc) == 'self.insertRule' and cc.args and rule_param and text(cc.args[0]) == rule_param:
+                                guarded = _under_wellformed(m, helper, x.stmt, rule_param)
+                                chk.ob(rid, rel, q, f'`{text(cc)}` in helper {helper.name} only if {rule_param}.wellformed', guarded, 'a rule that failed to parse is inserted')
+                    if okh:
+                        slices.append(n)
             if not slices:
                 chk.ob(rid, rel, q, 'consumes the statement', False, 'no _tokensupto2(tokenizer, token) call: the tokens of the statement stay in the stream and are parsed as further statements')
                 continue
@@ -88,7 +147,7 @@ def r04b(chk, rid='R04.b'):
             chk.ob(rid, rel, q, 'the statement is consumed on every path', ok, '' if ok else 'path that returns without consuming: ' + ' -> '.join(path[-4:]))
             for s in slices:
                 for c in cfgmod.calls_at(s):
-                    if call_name(c) == 'self._tokensupto2':
+                    if call_name(c) == 'self._tokensupto2' and m.enclosing_def(c) is fn:
                         plain = len(c.args) == 2 and text(c.args[0]) == 'tokenizer' and text(c.args[1]) == 'token' and not c.keywords
                         chk.ob(rid, rel, q, f'`{text(c)}` uses the default statement end (semicolon or the matching closing brace)', plain,
                                'another terminator lets a malformed statement with a block run on to the next ";" of the sheet')
@@ -100,10 +159,10 @@ def r04b(chk, rid='R04.b'):
     chk.require(rid, 30, 'statement callback obligations')
 
 
-def _under_wellformed(m, fn, stmt):
+def _under_wellformed(m, fn, stmt, var='rule'):
     child, n = stmt, m.parents.get(stmt)
     while n is not None and n is not fn:
-        if isinstance(n, ast.If) and child in n.body and 'rule.wellformed' in text(n.test):
+        if isinstance(n, ast.If) and child in n.body and f'{var}.wellformed' in text(n.test):
             return True
         if isinstance(n, ast.If) and child in n.orelse:
             # elif rule.wellformed: ... is represented as orelse=[If]
